@@ -146,7 +146,7 @@ func replayLine(c *checker, line string) {
 					ans = "ok " + hxs(rp)
 				}
 			case "PM":
-				if pkg, err := filepath.Rel(a, strings.TrimSuffix(b, ".thrift")); err == nil {
+				if pkg, err := filepath.Rel(a, strings.TrimSuffix(b, ".thrift")); err == nil && pkg != ".." && !strings.HasPrefix(pkg, "../") {
 					ans = "ok " + hxs(filepath.Join(pkg, filepath.Base(pkg)+".go"))
 				}
 			}
